@@ -59,13 +59,55 @@ let print_log (lg : ((M.z list * M.value) * M.value list) list) : string =
   Buffer.add_string b " )";
   Buffer.contents b
 
-let print_res (r : (M.value * 'a) M.res) (plog : 'a -> string) : string =
+let print_res ((r, lg) : M.value M.res * 'a) (plog : 'a -> string) : string =
   match r with
-  | M.ROk (v, lg) -> "OK " ^ string_of_value v ^ plog lg
-  | M.RErr e -> "ERR " ^ tok_of_err e
+  | M.ROk v -> "OK " ^ string_of_value v ^ plog lg
+  | M.RErr e -> "ERR " ^ tok_of_err e ^ plog lg
   | M.RPanic -> "PANIC"
   | M.RFuel -> "MODEL_FUEL"
   | M.RUnmod -> "UNMOD"
+
+let tok_name (t : M.token) : string =
+  match t with
+  | M.TQuestion -> "Question" | M.TColon -> "Colon" | M.TAdd -> "Add" | M.TMinus -> "Minus"
+  | M.TMultiply -> "Multiply" | M.TDivide -> "Divide" | M.TMod -> "Mod" | M.TNot -> "Not" | M.TDot -> "Dot"
+  | M.TComma -> "Comma" | M.TLBracket -> "LBracket" | M.TRBracket -> "RBracket" | M.TLBrace -> "LBrace"
+  | M.TRBrace -> "RBrace" | M.TLParen -> "LParen" | M.TRParen -> "RParen" | M.TLessThan -> "LessThan"
+  | M.TGreaterThan -> "GreaterThan" | M.TOrOr -> "OrOr" | M.TAndAnd -> "AndAnd" | M.TLessEqual -> "LessEqual"
+  | M.TGreaterEqual -> "GreaterEqual" | M.TEqualEqual -> "EqualEqual" | M.TNotEqual -> "NotEqual"
+  | M.TIn -> "In" | M.TNull -> "Null" | M.TMatch -> "Match" | M.TCase -> "Case"
+  | M.TBoolLit b -> if b then "Bool:1" else "Bool:0"
+  | M.TIntLit v -> "Int:" ^ dec_of_cz v
+  | M.TUIntLit v -> "UInt:" ^ dec_of_cz v
+  | M.TFloatLit f -> "Float:" ^ hex_of_f64 f
+  | M.TStringLit s -> "Str:" ^ hex_of_bytes (M.utf8_encode s)
+  | M.TFStringLit segs ->
+      "FStr:" ^ String.concat "," (List.map (function
+        | M.FLit s -> "L" ^ hex_of_bytes (M.utf8_encode s)
+        | M.FExpr s -> "E" ^ hex_of_bytes (M.utf8_encode s)) segs)
+  | M.TByteStringLit b -> "Bytes:" ^ hex_of_bytes b
+  | M.TIdent s -> "Ident:" ^ hex_of_bytes (M.utf8_encode s)
+
+let loc_str (l : M.loc) = dec_of_cz l.M.l_line ^ ":" ^ dec_of_cz l.M.l_col
+
+let decode_src (h : string) : M.z list =
+  match M.utf8_decode (bytes_of_hex h) with
+  | Some cs -> cs
+  | None -> raise (Parse_error "source not utf8")
+
+let lex_case (src : M.z list) : string =
+  let b = Buffer.create 64 in
+  let rec go (tz : M.tokenizer) =
+    match M.tz_next tz with
+    | M.TOk (Some t, tz') ->
+        Buffer.add_string b (tok_name t.M.t_tok);
+        Buffer.add_string b ("@" ^ loc_str t.M.t_loc.M.r_start ^ "-" ^ loc_str t.M.t_loc.M.r_end ^ " ");
+        go tz'
+    | M.TOk (None, tz') -> Buffer.add_string b ("END@" ^ loc_str (M.tz_loc tz'))
+    | M.TErr l -> Buffer.add_string b ("ERR@" ^ loc_str l)
+    | M.TFuel -> Buffer.add_string b "MODEL_FUEL" in
+  go (M.tz_init src);
+  Buffer.contents b
 
 let run_case (line : string) : string =
   let t = mk_toks line in
@@ -96,6 +138,13 @@ let run_case (line : string) : string =
       let a = parse_value t in
       if M.is_truthy a then "b1" else "b0"
   | "echo" -> string_of_value (parse_value t)
+  | "lex" -> let tk = next t in lex_case (decode_src (rest tk))
+  | "parse" ->
+      let src = decode_src (rest (next t)) in
+      (match M.parse_program (nat_of_int (List.length src + 2)) src with
+       | M.POk (e, _) -> "OK " ^ Astprint.expr_string e
+       | M.PErr l -> "ERR Esyn:" ^ loc_str l
+       | M.PFuel -> "MODEL_FUEL")
   | "run" ->
       (* run <entry> P( progs ) B( bindings ) F( ufuncs ) *)
       let entry = bytes_of_hex (next t) in
